@@ -8,6 +8,7 @@ verus! {
 //@@SPEC prop_ctx.rs@@
 //@@SPEC lemmas/trunc_div.rs@@
 //@@SPEC lemmas/nonlinear.rs@@
+//@@SPEC std_option_extra.rs@@
 
 pub assume_specification [i32::signum] (x: i32) -> (r: i32)
     ensures r == (if x > 0 { 1int } else if x < 0 { -1int } else { 0int });
